@@ -186,6 +186,8 @@ struct World {
     /// set by the answer judge: CommissioningComplete / RemoveFabric(g) succeeded in this step
     completed_now: bool,
     removed_now: Option<u8>,
+    /// the request of this step was answered with success
+    last_ok: bool,
     pub c07: bool,
     pub c11: bool,
     pub c11_crash_points_checked: u64,
@@ -217,7 +219,7 @@ impl World {
             roots.push((kp, spec, cert));
         }
         let dev = commdrv::boot(&mut exec, &net, 1, &kv, 1000, true);
-        let mut w = World { exec, net, kv, dev: Some(dev), admin, admin_task: None, answer: Rc::new(RefCell::new(None)), roots, next_root: 0, last_csr_key: None, model: Model::default(), committed: Config::default(), boots: 1, violations: Vec::new(), case_sessions: Vec::new(), memory_dirty: false, dirty_fabs: Default::default(), arming_fabric_changed: None, limbo: None, pase_gen: 0, pase_dev_id: 0, incarnation: BTreeMap::new(), must_be_gone: Default::default(), resumption_of: BTreeMap::new(), subscribed: BTreeMap::new(), completed_now: false, removed_now: None, c07: false, c11: false, c11_crash_points_checked: 0 };
+        let mut w = World { exec, net, kv, dev: Some(dev), admin, admin_task: None, answer: Rc::new(RefCell::new(None)), roots, next_root: 0, last_csr_key: None, model: Model::default(), committed: Config::default(), boots: 1, violations: Vec::new(), case_sessions: Vec::new(), memory_dirty: false, dirty_fabs: Default::default(), arming_fabric_changed: None, limbo: None, pase_gen: 0, pase_dev_id: 0, incarnation: BTreeMap::new(), must_be_gone: Default::default(), resumption_of: BTreeMap::new(), subscribed: BTreeMap::new(), completed_now: false, removed_now: None, last_ok: false, c07: false, c11: false, c11_crash_points_checked: 0 };
         w.exec.run()?;
         w.after_boot()?;
         w.committed = w.config();
@@ -480,6 +482,7 @@ impl World {
         let pre_fabrics = if self.dev.as_ref().map(|d| d.boot_error.borrow().is_none()).unwrap_or(false) { memory_config(self.md()) } else { vec![] };
         self.completed_now = false;
         self.removed_now = None;
+        self.last_ok = false;
         let r = self.apply_inner(op);
         if self.c07 && r.is_ok() {
             // the reference's view of which fabrics are gone now
@@ -578,8 +581,8 @@ impl World {
                         let noc = certw::sign(&c, &spec, &rkp.secret).map_err(|e| format!("{:?}", e.code()))?;
                         (f, false, false, commdrv::update_noc(&noc, None))
                     }
-                    Op::AclC(f) => (f, true, false, commdrv::write_acl(&[(5, vec![NODE_ADMIN]), (3, vec![0x7777])])),
-                    Op::LabelC(f) => (f, false, false, commdrv::update_fabric_label("kitchen")),
+                    Op::AclC(f) => (f, true, false, commdrv::write_acl(&[(5, vec![NODE_ADMIN]), (3, vec![0x7777, 0xFFFF_FFFD_0001_0001])])),
+                    Op::LabelC(f) => (f, false, false, commdrv::update_fabric_label("kitchen-\u{fc}-0123456789-ABCDEFGHI")),
                     Op::VidStmtC(f) => (f, false, false, commdrv::set_vid_verification_statement(0x1234)),
                     Op::CompleteC(f) => (f, false, false, commdrv::commissioning_complete()),
                     Op::CompleteP => (0, false, false, commdrv::commissioning_complete()),
@@ -591,6 +594,7 @@ impl World {
                 };
                 let ans = self.request(via, write, timed, req)?;
                 let o = outcome(&ans);
+                self.last_ok = succeeded(o);
                 self.expire_model_if_due();
                 let failed_now = self.kv.0.borrow().failures > store_failures_before;
                 self.judge_answer(op, via, o, &ans, failed_now);
@@ -715,7 +719,7 @@ impl World {
         }
         if matches!(op, Op::Restart) {
             self.dirty_fabs.clear();
-        } else if independent && !store_failed {
+        } else if independent && !store_failed && self.last_ok {
             // (a fabric is persisted as a whole: a store that succeeds brings the two images of *that* fabric together again)
             if let Some(f) = touched {
                 self.dirty_fabs.remove(&f);
